@@ -875,6 +875,7 @@ func runConc(c *Case, tr *Trace) {
 		if plainUnfold() != u0 {
 			iso++
 		}
+		iso += interleavedUnfolders()
 	}
 	var mu sync.Mutex
 	mismatches, errs := inputWritten, 0
@@ -1097,4 +1098,95 @@ func runGoReuse(c *Case, tr *Trace) {
 	default:
 		panic("harness: unknown goreuse component " + comp)
 	}
+}
+
+// interleavedUnfolders: two Unfolders created from ONE options value (the way an application shares its
+// configuration) take their documents in turns within one goroutine - A is in the middle of a value of a type with
+// a user-defined unfolder, at a different depth than B, while B unfolds a whole value of the same type.  Each must
+// end with what it yields alone.  Returns the number of differences.
+func interleavedUnfolders() int {
+	type evs = []func(structform.Visitor) error
+	arr := func(xs ...int64) evs {
+		out := evs{func(v structform.Visitor) error { return v.OnArrayStart(len(xs), structform.AnyType) }}
+		for _, x := range xs {
+			x := x
+			out = append(out, func(v structform.Visitor) error { return v.OnInt64(x) })
+		}
+		return append(out, func(v structform.Visitor) error { return v.OnArrayFinished() })
+	}
+	obj := func(kv ...interface{}) evs {
+		out := evs{func(v structform.Visitor) error { return v.OnObjectStart(len(kv)/2, structform.AnyType) }}
+		for i := 0; i < len(kv); i += 2 {
+			k, x := kv[i].(string), kv[i+1]
+			out = append(out, func(v structform.Visitor) error { return v.OnKey(k) })
+			switch x := x.(type) {
+			case string:
+				out = append(out, func(v structform.Visitor) error { return v.OnString(x) })
+			case int:
+				out = append(out, func(v structform.Visitor) error { return v.OnInt64(int64(x)) })
+			case evs:
+				out = append(out, x...)
+			}
+		}
+		return append(out, func(v structform.Visitor) error { return v.OnObjectFinished() })
+	}
+	type deepA struct {
+		Q  int `struct:"q"`
+		In struct {
+			P1 UProc `struct:"p1"`
+			O  UObj  `struct:"o"`
+			K  UKeys `struct:"k"`
+			S  USelf `struct:"s"`
+			T  UPt   `struct:"t"`
+			P2 UProc `struct:"p2"`
+		} `struct:"in"`
+	}
+	type flatB struct {
+		P1 UProc `struct:"p1"`
+		O  UObj  `struct:"o"`
+		K  UKeys `struct:"k"`
+		S  USelf `struct:"s"`
+		T  UPt   `struct:"t"`
+	}
+	docA := obj("q", 1, "in", obj("p1", arr(7, 8, 9), "o", obj("k", "ka", "n", 11), "k", obj("a1", 1, "a2", 2), "s", obj("n", 4), "t", arr(5, 6), "p2", arr(3)))
+	docB := obj("p1", arr(1, 2), "o", obj("n", 22, "k", "kb"), "k", obj("b1", 1), "s", obj("n", 2), "t", arr(8, 9))
+	run := func(a, b *gotype.Unfolder, cut int) (string, string) {
+		feed := func(u *gotype.Unfolder, es evs) string {
+			for _, e := range es {
+				if err := e(u); err != nil {
+					return err.Error()
+				}
+			}
+			return ""
+		}
+		ea := feed(a, docA[:cut])
+		eb := feed(b, docB)
+		if ea == "" {
+			ea = feed(a, docA[cut:])
+		}
+		return ea, eb
+	}
+	show := func(err string, x interface{}) string {
+		b, _ := json.Marshal(x)
+		return err + string(b)
+	}
+	diffs := 0
+	for cut := 0; cut <= len(docA); cut++ {
+		var a0, a1 deepA
+		var b0, b1 flatB
+		ua0, e1 := gotype.NewUnfolder(&a0, userUnfolders)
+		ub0, e2 := gotype.NewUnfolder(&b0, userUnfolders)
+		if e1 != nil || e2 != nil {
+			return 1
+		}
+		// alone: all of A, then all of B
+		ea0, eb0 := run(ua0, ub0, len(docA))
+		ua1, _ := gotype.NewUnfolder(&a1, userUnfolders)
+		ub1, _ := gotype.NewUnfolder(&b1, userUnfolders)
+		ea1, eb1 := run(ua1, ub1, cut)
+		if show(ea0, a0) != show(ea1, a1) || show(eb0, b0) != show(eb1, b1) {
+			diffs++
+		}
+	}
+	return diffs
 }
